@@ -159,7 +159,9 @@ def run(ctx, params):
         base = RepetitionCodeDescription.from_connectivity(involved_qubit_ids=involved, connectivity=layout)
         index_map = {q: i for i, q in enumerate(involved)}
         all_edges = [op.identifier for layer in base.gate_sequences for op in layer.gate_operations]
-        cases = [dict()] + [dict(_exclude_gate_edge_ids=[e]) for e in all_edges] + [dict(_exclude_gate_qubit_ids=[q]) for q in involved]
+        # (an edge identifier names the same edge whichever way round it is written: exclusions are given in both orientations)
+        cases = [dict()] + [dict(_exclude_gate_edge_ids=[e]) for e in all_edges] + [dict(_exclude_gate_edge_ids=[EdgeIDObj(e.qubit_ids[1], e.qubit_ids[0])]) for e in all_edges] \
+            + [dict(_exclude_gate_qubit_ids=[q]) for q in involved]
         for case in cases:
             for only_req in (False, True):
                 comp = CompositeRepetitionCodeDescription(_base_description=base, _qubit_index_map=index_map, _connectivity=layout,
